@@ -1,6 +1,7 @@
 package main
 
 import (
+	"sort"
 	"fmt"
 	"go/token"
 	"go/types"
@@ -11,7 +12,8 @@ import (
 
 func init() {
 	register("C10", func(r *Report) {
-		r.Explanation = "Decides that the reaping mechanism is wired on every path and for every stopping point (it does not depend on which packet was last): (R1) the gateway's connect transaction is a TimedTransaction whose timeout argument is the constant 5 s; (R2) the function that starts the connect exchange spawns the watcher goroutine before any early return, on every path, and the watcher returns a non-nil error other than the clean-shutdown sentinel when the transaction failed with anything but the 'cancelled' sentinel (so the errgroup cancels the session); it waits on the transaction's Done() and on the session context; (R3) the timed transaction's timer callback fails it with ErrTimeout and completion closes Done on every path (C18-R1/C19-R3); (R4) after a successful dial every return of the session function runs the deferred Close of the broker connection; (R5) a CONNECT that cancels the pending connect exchange always starts a new one (or ends the session with an error), for every state, keep-alive zero/non-zero and protocol ID: a handler never stays connected to the broker without a running timer. Not decided: the numeric bound '5 s + one poll interval'."
+		r.Explanation = "Decides that the reaping mechanism is wired on every path and for every stopping point (it does not depend on which packet was last): (R1) the gateway's connect transaction is a TimedTransaction whose timeout argument is the constant 5 s; (R2) the function that starts the connect exchange spawns the watcher goroutine before any early return, on every path, and the watcher returns a non-nil error other than the clean-shutdown sentinel when the transaction failed with anything but the 'cancelled' sentinel (so the errgroup cancels the session); it waits on the transaction's Done() and on the session context; (R3) the timed transaction's timer callback fails it with ErrTimeout and completion closes Done on every path (C18-R1/C19-R3); (R4) after a successful dial every return of the session function runs the deferred Close of the broker connection; (R5) a CONNECT that cancels the pending connect exchange always starts a new one (or ends the session with an error), for every state, keep-alive zero/non-zero and protocol ID: a handler never stays connected to the broker without a running timer; (R6) the timed transaction's timer field is stored by the constructor only and otherwise only stopped (no Reset, no re-arming): the limit runs from the CONNECT and is never extended. Not decided: the numeric bound '5 s + one poll interval'."
+		r.floor("R6", 1)
 		r.floor("R1", 1)
 		r.floor("R2", 2)
 		r.floor("R5", 8)
@@ -241,6 +243,65 @@ func checkC10(c *Ctx, r *Report) {
 			skip, _ := pathExists(p, nil, func(x ssa.Instruction) bool { _, ok := x.(*ssa.Return); return ok }, func(x ssa.Instruction) bool { return x == af })
 			r.cond(!skip, "R3", "NewTimedTransaction:timer-on-every-path", c.instrPos(af), "every path through the constructor arms the timer",
 				"a path through NewTimedTransaction returns a transaction whose timer was never armed: an exchange built with that timeout value never times out (or a later completion uses a nil timer)")
+		}
+	}
+	// R6: the time limit runs from the construction of the exchange and is never extended: the timed transaction's
+	// timer is written by the constructor only and, once armed, only ever stopped (no Reset, no second AfterFunc)
+	if p := c.SSA[pkTrans].Func("NewTimedTransaction"); p != nil && p.Signature.Results().Len() == 1 {
+		if st := structOf(p.Signature.Results().At(0).Type()); st != nil {
+			tt := p.Signature.Results().At(0).Type()
+			nUse := 0
+			var bads []string
+			for _, f := range c.allRepoFuncs() {
+				allInstrs(f, func(i ssa.Instruction) {
+					fa, ok := i.(*ssa.FieldAddr)
+					if !ok || structOf(fa.X.Type()) != st || !typeIs(st.Field(fa.Field).Type(), "time", "Timer") {
+						return
+					}
+					if fa.Referrers() == nil {
+						return
+					}
+					top := f
+					for top.Parent() != nil {
+						top = top.Parent()
+					}
+					for _, u := range *fa.Referrers() {
+						nUse++
+						switch x := u.(type) {
+						case *ssa.Store:
+							if x.Addr == ssa.Value(fa) && top != p {
+								bads = append(bads, c.instrPos(u)+": the timer is replaced outside the constructor")
+							}
+						case *ssa.UnOp:
+							if x.Referrers() == nil {
+								continue
+							}
+							for _, u2 := range *x.Referrers() {
+								switch y := u2.(type) {
+								case ssa.CallInstruction:
+									if n := calleeName(y.Common()); n != "(*time.Timer).Stop" {
+										bads = append(bads, c.instrPos(u2)+": "+n+" on the timer of a running exchange")
+									}
+								case *ssa.BinOp, *ssa.DebugRef:
+								default:
+									bads = append(bads, c.instrPos(u2)+": the timer escapes ("+u2.String()+")")
+								}
+							}
+						case *ssa.DebugRef:
+						default:
+							bads = append(bads, c.instrPos(u)+": the address of the timer field escapes ("+u.String()+")")
+						}
+					}
+				})
+			}
+			_ = tt
+			if nUse == 0 {
+				r.undecided("R6", "timed-transaction:timer-never-rearmed", "-", "no use of the timed transaction's timer field found")
+			} else {
+				sort.Strings(bads)
+				r.cond(len(bads) == 0, "R6", "timed-transaction:timer-never-rearmed", c.pos(p.Pos()), fmt.Sprintf("%d uses of the timer field: stored by the constructor only, otherwise only stopped", nUse),
+					"the time limit of a running timed transaction can be changed after construction ("+strings.Join(bads, "; ")+"): the connect exchange is then no longer reaped 5 s after the CONNECT (a non-positive or long value leaves the half-open session unreaped)")
+			}
 		}
 	}
 	c.checkBrokerConnClosed(r, "R4")
